@@ -283,17 +283,66 @@ def range_rule(ctx, R):
             a, b = res.a, res.b
             items = ("phi", key(res.cond), [key(x) for x in a.items] if isinstance(a, Seq) else None, [key(x) for x in b.items] if isinstance(b, Seq) else None)
         timek = {"TIME", "deepcopy(TIME)", "copy.deepcopy(TIME)"}
-        if filt_branch:
-            ok = isinstance(items, tuple) and (
-                (items[1] in ("cmp(eq, mod(NUMBER(TIME), DT), 0)", "not(truth(mod(NUMBER(TIME), DT)))") and items[2] and items[2][0] in timek and len(items[2]) == 1 and items[3] == [])
-                or (items[1] in ("truth(mod(NUMBER(TIME), DT))", "cmp(ne, mod(NUMBER(TIME), DT), 0)") and items[3] and items[3][0] in timek and len(items[3]) == 1 and items[2] == []))
-            R.check(ok, "C17.RANGE", f.qual + "|%s filter" % tag, where(f, ws), "keeps the boundaries whose unit number is divisible by dt", "with dt > 1 one pass adds %s: not 'time iff number(time) %% dt == 0'" % (items,))
-        else:
-            ok = isinstance(items, list) and len(items) == 1 and items[0] in timek
-            R.check(ok, "C17.RANGE", f.qual + "|%s collects" % tag, where(f, ws), "every boundary is listed once", "one pass adds %s, expected the current boundary once" % (items,))
+        # when is the current boundary added?  (as a boolean function of A = dt > 1 and B = number(time) % dt == 0)
+        added = None
+        if isinstance(items, list):
+            if len(items) == 1 and items[0] in timek:
+                added = ("const", True)
+            elif not items:
+                added = ("const", False)
+        elif isinstance(items, tuple):
+            ctree = res.cond.tree if isinstance(res.cond, Cond) else None
+            if items[2] and len(items[2]) == 1 and items[2][0] in timek and items[3] == []:
+                added = ctree
+            elif items[3] and len(items[3]) == 1 and items[3][0] in timek and items[2] == []:
+                added = ("not", ctree) if ctree is not None else None
+        ok = added is not None
+        if ok:
+            As = [filt_branch] if filt_branch is not None else [True, False]
+            for A_ in As:
+                for B_ in (True, False):
+                    got = _beval(added, A_, B_)
+                    want = (not A_) or B_
+                    if got is None or got != want:
+                        ok = False
+        R.check(ok, "C17.RANGE", f.qual + "|%s selection" % tag, where(f, ws), "a boundary is listed iff dt <= 1 or its unit number is divisible by dt", "one pass adds %s: a boundary must be listed exactly when dt <= 1 or number(time) %% dt == 0" % (items,))
     rets = [n for n in cfg.stmt_nodes() if n.kind == "stmt" and isinstance(n.ast, ast.Return)]
     R.check(len(rets) == 1 and ntext(rets[0].ast.value) == lvar, "C17.RANGE", f.qual + "|returns the list", where(f), "returns the collected boundaries", "range() does not return the collected list")
     R.check(len(whiles) in (1, 2), "C17.RANGE", f.qual + "|loops", where(f), "%d enumeration loop(s)" % len(whiles), "unexpected number of loops", nontrivial=False)
+
+
+def _beval(t, A_, B_):
+    """Evaluate a condition tree over A = (DT > 1) and B = (NUMBER(TIME) % DT == 0); None if not understood."""
+    if isinstance(t, tuple):
+        if t[0] == "const":
+            return t[1]
+        if t[0] == "not":
+            v = _beval(t[1], A_, B_)
+            return None if v is None else not v
+        if t[0] in ("and", "or"):
+            vs = [_beval(x, A_, B_) for x in t[1:]]
+            if any(v is None for v in vs):
+                return None
+            return all(vs) if t[0] == "and" else any(vs)
+        if t[0] == "truth":
+            k = key(t[1])
+            if k == "mod(NUMBER(TIME), DT)":
+                return not B_
+            return None
+        if t[0] == "cmp":
+            a, b = key(t[2]), key(t[3])
+            if t[1] == "lt" and (a, b) == ("1", "DT"):
+                return A_
+            if t[1] == "le" and (a, b) == ("DT", "1"):
+                return not A_
+            if t[1] == "le" and (a, b) == ("2", "DT"):
+                return A_
+            if t[1] == "lt" and (a, b) == ("DT", "2"):
+                return not A_
+            if t[1] in ("eq", "ne") and {a, b} == {"mod(NUMBER(TIME), DT)", "0"}:
+                return B_ if t[1] == "eq" else not B_
+            return None
+    return None
 
 
 @rule("C17.CALFIELD")
@@ -315,7 +364,7 @@ def calfield(ctx, R):
                 if mname == "offset" and isinstance(a, ast.Name) and a.id in f.params:
                     ok = True
                 R.check(ok, "C17.CALFIELD", "%s|step(%s, ..)" % (f.qual, ntext(a)[:30]), where(f, c), "step is applied to a unit boundary (floor/step result)", "`%s` steps `%s`, which is not known to be a unit boundary: month/year steps keep the day of month and raise ValueError for the 29th-31st" % (ntext(c)[:60], ntext(a)[:40]))
-    R.check(n >= 4, "C17.CALFIELD.inventory", "step applications examined: %d" % n, "", "", "fewer step applications than expected", nontrivial=False)
+    R.check(n >= 3, "C17.CALFIELD.inventory", "step applications examined: %d" % n, "", "", "fewer step applications than expected", nontrivial=False)
     # (2) replace(month=..)/replace(year=..) without day= only in the month/year step helpers; replace(day=e) only with e == 1
     ev, st, reg, cl = registry_closures(ctx)
     allowed = set()
